@@ -29,8 +29,8 @@ def _work(chunk):
     for cid, case in chunk:
         try:
             out.append((cid, (R.run_life_case if case.get("life") else R.run_case)(cid, case), None))
-        except R.WouldBlock:
-            out.append((cid, None, "WouldBlock escaped"))
+        except (R.WouldBlock, R.Hang) as e:
+            out.append((cid, None, f"{type(e).__name__} escaped"))
         except Exception as e:  # noqa: BLE001
             out.append((cid, None, f"{type(e).__name__}: {e}"))
     return out
